@@ -71,6 +71,8 @@ def rat(x):
 
         if isinstance(x, np.integer):
             return [int(x), 1]
+        if isinstance(x, np.ndarray) and x.shape == ():      # a 0-d object array around one exact number
+            return rat(x.item())
     except ImportError:  # pragma: no cover
         pass
     raise TypeError(f"not an exact rational: {x!r} ({type(x).__name__})")
